@@ -1820,6 +1820,16 @@ def _b_len(I, args, kw):
         I.assume(r >= 0)
         I.assume((r == 0) == z3.Not(z3.Exists([x], z3.Select(v.arr, x) > 0)))
         return VInt(r)
+    if isinstance(v, (VDict, VSet)):
+        # number of keys / members: an uninterpreted non-negative size of the domain, zero iff it is empty (nothing else is known:
+        # in particular the size says nothing about WHICH keys are present)
+        I.st.trusted_used.add('len(dict/set): uninterpreted non-negative size of the key set, zero iff empty')
+        dom = v.dom if isinstance(v, VDict) else v.arr
+        r = fn('dom_size_%d' % dom.sort().domain().hash(), dom.sort(), z3.IntSort())(dom)
+        x = core.fresh('x', dom.sort().domain())
+        I.assume(r >= 0)
+        I.assume((r == 0) == z3.Not(z3.Exists([x], z3.Select(dom, x))))
+        return VInt(r)
     if isinstance(v, VRef):
         h = I.spec.calls.get('len')
         if h:
@@ -1962,6 +1972,8 @@ def _b_tuple(I, args, kw):
     v = unopt(I, args[0])
     if isinstance(v, (VTuple, VCList, VGen)):
         return VTuple(v.items)
+    if isinstance(v, (VSet, VBag, VList)):
+        return v            # an immutable copy of a symbolic collection: same members (order abstracted for sets / multisets)
     raise Unsupported('tuple(%r)' % (v,))
 
 
